@@ -65,6 +65,15 @@ def observe(ctx, rng_seed, limit, pairs_for=None):
         log['pairs_missing'] = len(pairs) - len(keyed)
     log['join'] = {(a, b): (fe(x | y), fi(x | y)) for x, y, a, b in keyed}
     log['meet'] = {(a, b): (fe(x & y), fi(x & y)) for x, y, a, b in keyed}
+    # the n-ary forms on the same pairs, the collection handed over in rotating shapes
+    # (list, one-shot iterator, generator, set, tuple): the same statements must come out
+    shapes = [list, iter, lambda v: (c for c in v), set, tuple]
+    log['join_n'], log['meet_n'] = {}, {}
+    for t, (x, y, a, b) in enumerate(keyed[:120]):
+        j = lat.join(shapes[t % 5]([x, y]))
+        m = lat.meet(shapes[(t + 2) % 5]([x, y]))
+        log['join_n'][a, b] = (fe(j), fi(j))
+        log['meet_n'][a, b] = (fe(m), fi(m))
     alg = _CONCEPTS.algorithms
     log['fcbo'] = [(frozenset(e.members()), frozenset(i.members())) for e, i in alg.fast_generate_from(ctx)]
     log['fcbo_dual'] = [(frozenset(e.members()), frozenset(i.members())) for e, i in alg.fcbo_dual(ctx)]
@@ -196,7 +205,7 @@ def run_case(concepts, case, spec):
         if log is None:
             continue
         COL.count('relations_checked_permutation')
-        for key in ('n', 'concepts', 'covers', 'lower', 'join', 'meet', 'relations', 'relations_n'):
+        for key in ('n', 'concepts', 'covers', 'lower', 'join', 'meet', 'join_n', 'meet_n', 'relations', 'relations_n'):
             if log[key] != base[key]:
                 differ('permutation', f'{key}-changed', base[key], log[key])
         if base['order'] is not None and log['order'] != base['order']:
@@ -239,6 +248,12 @@ def run_case(concepts, case, spec):
                     if t is not None and (t[1], t[0]) != (me, mi):
                         differ('transposition', 'join-of-dual-is-not-meet', (me, mi), (t[1], t[0]))
                         break
+                for mine, theirs in (('join_n', 'meet_n'), ('meet_n', 'join_n')):
+                    for (a, b), (je, ji) in base[mine].items():
+                        t = log[theirs].get((a, b))
+                        if t is not None and (t[1], t[0]) != (je, ji):
+                            differ('transposition', f'n-ary-{theirs[:4]}-of-dual-is-not-{mine[:4]}', (je, ji), (t[1], t[0]))
+                            break
                 for mine, theirs in (('fcbo', 'fcbo_dual'), ('fcbo_dual', 'fcbo')):
                     if canon(log[mine]) != canon((i, e) for e, i in base[theirs]):
                         differ('transposition', f'{mine}-of-dual-is-not-swapped-{theirs}',
